@@ -1845,6 +1845,8 @@ def _mapping_descriptor0(fi: FuncInfo, e: ast.expr, depth=0):
     if depth > 4 or e is None:
         return None
     if isinstance(e, ast.Name):
+        if single_def(fi.node, e.id) is None and e.id in params_of(fi.node) and e.id not in assigned_names(fi.node):
+            return ("var", e.id)            # a map handed in by the caller: the same object wherever it is used
         return _mapping_descriptor0(fi, single_def(fi.node, e.id), depth + 1)
     if isinstance(e, ast.Call) and isinstance(e.func, ast.Name) and e.func.id == "dict" and e.args:
         z = e.args[0]
@@ -1938,6 +1940,10 @@ def _node_label_map(fi: FuncInfo, e: ast.expr, depth=0):
                         return ("zip", norm(g.iter.args[1]), norm(g.iter.args[0]))
         if isinstance(lab, ast.Name) and isinstance(dat, ast.Name) and isinstance(g.target, ast.Tuple) and [norm(t) for t in g.target.elts] == [lab.id, dat.id]:
             return _node_label_map(fi, g.iter, depth + 1)
+        # (M[old], attrs) for old, attrs in src.nodes(data=True)
+        if isinstance(lab, ast.Subscript) and isinstance(lab.value, ast.Name) and isinstance(lab.slice, ast.Name) and isinstance(dat, ast.Name) \
+                and isinstance(g.target, ast.Tuple) and [norm(t) for t in g.target.elts] == [lab.slice.id, dat.id] and _node_label_map(fi, g.iter, depth + 1) == "same":
+            return _mapping_descriptor(fi, lab.value)
     return None
 
 
